@@ -225,6 +225,7 @@ class SLCDriver(CIPDriver):
             raise RequestError(f"Error parsing the tag passed to write() - {tag}")
 
         _tag["data_size"] = PCCC_DATA_SIZE[_tag["file_type"]]
+        _value = writeable_value(_tag, value)  # may change data_size (bit writes are always one word)
 
         message_request = [
             self._msg_start(),
@@ -237,7 +238,7 @@ class SLCDriver(CIPDriver):
             PCCC_DATA_TYPE[_tag["file_type"]],
             USINT.encode(int(_tag["element_number"])),
             USINT.encode(int(_tag.get("pos_number", 0))),
-            writeable_value(_tag, value),
+            _value,
         ]
         request = SendUnitDataRequestPacket(self._sequence)
         request.add(b"".join(message_request))
